@@ -27,6 +27,11 @@
     }
   };
   G.verifSame = function (a, b) { return a === b; };
+  // the documented conversions, computed by JavaScript itself and returned as plain numbers / strings
+  G.verifParseFloat = function (x) { return parseFloat(x); };
+  G.verifParseInt32 = function (x) { return parseInt(x) >> 0; };
+  G.verifTruthy = function (x) { return x ? 1 : 0; };
+  G.verifString = function (x) { return String(x); };
   G.verifTouch = function (x) { x[0] = ArrayBuffer.isView(x) ? 42 : 'changed'; };
   G.verifCatch = function (name) { try { G[name](); return 'no error'; } catch (e) { return String(e && e.message !== undefined ? e.message : e); } };
   G.verifLater = function (name) {
@@ -42,6 +47,8 @@
       case 'uint8': return new Uint8Array([1, 255]); case 'uint16': return new Uint16Array([1, 65535]); case 'uint32': return new Uint32Array([1, 4294967295]);
       case 'float32': return new Float32Array([1.5, 2]); case 'float64': return new Float64Array([1.5, 2]);
       case 'function': return function (a, b) { return a + b; }; case 'nested': return { inner: { deep: [1] } };
+      case 'counter': return { base: 5, add: function (x) { return this.base + x; }, join: function () { return this.base + ':' + Array.prototype.join.call(arguments, ','); }, width: 1 };
+      case 'nonnumbers': return ['12.5px', '3 apples', '1.2.3', '1_000', '0x10', '', '   ', null, false, true, [], [1, 2], new Date(5), undefined, {}, '1e3', '-7.9', '  42  ', 'Infinity', '-0', '.5', '+8', [[3]], 'NaN'];
       case 'big': return 9007199254740991; case 'negint': return -7;
       case 'wrapped': return { name: 'nm', count: 7, ratio: 1.5, flag: true, inner: { label: 'lab' }, fn: function (x) { return x * 2; } };
     }
